@@ -34,6 +34,19 @@ theorem G_Ginv (w t : Vec 3 R) (a b c Q : R) (hQ : Q = w 0 * w 0 + w 1 * w 1 + w
   · linear_combination (w 0 * t 1 - w 1 * t 0) * e1 + (w 0 * (w 2 * t 0 - w 0 * t 2) - w 1 * (w 1 * t 2 - w 2 * t 1)) * e2 +
       (-a*c*t 0*w 1 + a*c*t 1*w 0 + b*c*t 0*w 0*w 2 + b*c*t 1*w 1*w 2 - b*c*t 2*w 0^2 - b*c*t 2*w 1^2 + b*t 0*w 1/2 - b*t 1*w 0/2) * hQ
 
+/-- the two maps commute: G⁻¹(G v) = v as well -/
+theorem Ginv_G (w v : Vec 3 R) (a b c Q : R) (hQ : Q = w 0 * w 0 + w 1 * w 1 + w 2 * w 2)
+    (e1 : a - 1 / 2 - Q * (a * c - b / 2) = 0) (e2 : c + b - a / 2 - Q * b * c = 0) :
+    Gmap (-(1 / 2)) c w (Gmap a b w v) = v := by
+  funext i
+  fin_cases i <;> simp [Gmap, cross3]
+  · linear_combination (w 1 * v 2 - w 2 * v 1) * e1 + (w 1 * (w 0 * v 1 - w 1 * v 0) - w 2 * (w 2 * v 0 - w 0 * v 2)) * e2 +
+      (-a*c*v 1*w 2 + a*c*v 2*w 1 - b*c*v 0*w 1^2 - b*c*v 0*w 2^2 + b*c*v 1*w 0*w 1 + b*c*v 2*w 0*w 2 + b*v 1*w 2/2 - b*v 2*w 1/2) * hQ
+  · linear_combination (w 2 * v 0 - w 0 * v 2) * e1 + (w 2 * (w 1 * v 2 - w 2 * v 1) - w 0 * (w 0 * v 1 - w 1 * v 0)) * e2 +
+      (a*c*v 0*w 2 - a*c*v 2*w 0 + b*c*v 0*w 0*w 1 - b*c*v 1*w 0^2 - b*c*v 1*w 2^2 + b*c*v 2*w 1*w 2 - b*v 0*w 2/2 + b*v 2*w 0/2) * hQ
+  · linear_combination (w 0 * v 1 - w 1 * v 0) * e1 + (w 0 * (w 2 * v 0 - w 0 * v 2) - w 1 * (w 1 * v 2 - w 2 * v 1)) * e2 +
+      (-a*c*v 0*w 1 + a*c*v 1*w 0 + b*c*v 0*w 0*w 2 + b*c*v 1*w 1*w 2 - b*c*v 2*w 0^2 - b*c*v 2*w 1^2 + b*v 0*w 1/2 - b*v 1*w 0/2) * hQ
+
 /-- the half-angle tangent as the code uses it -/
 def TanLaw (P : Prims R) : Prop := ∀ θ : R, P.tan (θ / 2) * (1 + P.cos θ) = P.sin θ ∧ P.tan (θ / 2) * P.sin θ = 1 - P.cos θ
 
